@@ -9,7 +9,9 @@ META = {
                    "quotient is >= 0 and -1/2 otherwise, selected on the same quotient term, then truncates - this is round-half-away-from-zero; the "
                    "quotient is (x - bias)/res with the decoder's constants (O-agree); (O-err2) for every real x in the field's range the computed quotient "
                    "differs from (x-b)/c by less than 1/2 - u(|p|+1) in the worst case, so the result is one of the two neighbouring grid points and the "
-                   "decoded value differs from x by at most half a step plus the stated slack; monotonicity follows from monotonicity of each step.",
+                   "decoded value differs from x by at most half a step plus the stated slack; monotonicity follows from monotonicity of each step. "
+                   "The carrier step (put keeps the low w bits, parse returns them sign-extended / sign-magnitude per carrier) is the abstract "
+                   "interpretation of C07 (B-sem, S-sem), imported so that a grid point cannot wrap in transport.",
     "assumptions": ["behaviour outside the representable range is only required not to panic (C09)"],
 }
 
@@ -18,3 +20,10 @@ def run(ctx, res):
     prog = ctx.prog("K0")
     fieldmodel.check_fields(prog, res, prop="C11")
     fieldmodel.check_handwritten(prog, res, prop="C11")
+    # "in-range inputs never wrap around": the selected grid point has to survive the integer carrier (put's low-w-bits reading, parse's
+    # sign extension / sign-magnitude reading) - the same decision C07/C08 use, restricted to the value clauses
+    import bitio
+    import engine
+    view = engine.Filtered(res, {"B-sem", "S-sem", "B-guard", "S-fix"})
+    bitio.rule_bitsem(prog, view)
+    bitio.rule_signsem(prog, view)
